@@ -30,6 +30,18 @@ claimed = {
          "Decides structural necessary conditions only: every recursion over the untrusted definition carries a visited-set or depth guard, bracket positions are ordered before slicing, only RE2 regexps are used, no abort calls, nested errors are propagated. Does not decide that the returned tree is the right one.",
          "Trusts go/types, go/ssa, VTA call graph and this checker.",
          "DESIGN.md section 3 C19"),
+ "C01": ("codec-layout extraction from typed ASTs (E1) compared with the spec's tables; linear size forms (E8); buffer-origin (aliasing) analysis over go/ssa; SSA pattern rules for binding keys",
+         "Decides structural necessary conditions only: Go encoder and decoder layouts equal the specification table for all 15 record kinds; the reusable encode buffer is sized for what is written; values handed to callers do not alias reusable read buffers; yielded messages are bound to channel/schema through their own ids. Does not decide value equality, the de-chunking state machine, or flag combinations.",
+         "Trusts go/types, go/ssa and this checker; the spec's Markdown tables are the oracle for layouts; documented aliasing exceptions (ParseChunk, ParseMessage) are allowed by name with a reason.",
+         "DESIGN.md section 3 C01"),
+ "C05": ("codec-layout extraction (E1) vs the spec tables; linear size forms (E8)",
+         "Decides structural necessary conditions only: for each record kind the encoder's field order, widths and framing opcode equal the specification, and the message buffer is sized for what is written. Does not decide whole-file grammar or the numeric exactness of offsets on concrete inputs.",
+         "Trusts go/types and this checker; the spec's Markdown tables are the oracle.",
+         "DESIGN.md section 3 C05"),
+ "C16": ("codec-layout extraction (E1) from Go typed ASTs and from Python sources via ast.parse (never imported), compared with the spec tables; opcode/magic tables; offset-convention patterns in the Python writer/reader",
+         "Decides structural necessary conditions only: Go encoder/decoder and Python write/read layouts all equal the spec table (so they agree with each other), opcode values and magic agree, attachment CRC scope and offset conventions agree. Does not decide any dynamic reader behaviour.",
+         "Trusts go/types, Python's ast module and this checker; the Python side is parsed, never executed.",
+         "DESIGN.md section 3 C16"),
 }
 na_reason = "check not built yet (build in progress, see DESIGN.md section 7.2)"
 
